@@ -147,6 +147,43 @@ CLAIMED = {
         note=TB + 'Closed under the global context. peg_never_stuck / position_invariant over the whole interpreter are not yet theorems; the '
              'host recursion limit is runtime (known finding); reading of rule texts is C16.',
         technique='Coq lemmas on interpreter primitives + vm_compute certificates on the regenerated grammar + vm_compute correspondence with time-outs'),
+    'C08': dict(
+        text='Machine-checked proof (Coq) about the executable matcher model (own embedding enumeration + the three constraint filters): SOUNDNESS '
+             'for every fragment and molecule - each returned tuple has one entry per declared atom in declaration order, its entries are distinct, '
+             'each satisfies its atom\'s element class and charge, every declared bond exists with a compatible type, and all bond / atom / stereo '
+             'constraints and the molecule prefix hold; completeness relative to the raw embeddings (filters drop nothing that passes); a failing '
+             'molecule prefix gives no match. PARTIAL: completeness of the enumeration and layout/label independence are decided by the '
+             'bounded-exhaustive correspondence (977 small fragments x small molecules + random) and the layout/label variant oracle.',
+        design='5 / shared core G, C08',
+        note=TB + 'Closed under the global context. RDKit Atom/Bond match primitives are rendered by qatom_ok/qbond_ok (calibrated by the '
+             'correspondence); cap of 10000 raw embeddings is a guard.',
+        technique='Coq soundness proof by induction over the placement order + vm_compute correspondence on exported molecule graphs'),
+    'C02': dict(
+        text='Machine-checked proof (Coq), PARTIAL: finite theorem over the nine scheme files REGENERATED from /repo on every run and read by the Coq '
+             'parser+reader (every pattern readable, remaps well-formed, chain-free, unique sources, no molecule prefix); for all inputs: an atom '
+             'matched by a second centre pattern makes the call fail, centres are only given to unnamed atoms, the only failure is the pattern-match '
+             'error and it happens exactly when centre assignment fails, dictionary counting is addition on the named entry. The model Graph/Scheme.v '
+             'is the independent interpreter of the scheme file; its agreement with GetDescriptors on generated molecules of every scheme is '
+             'decided by the correspondence on every run.',
+        design='5 / C02',
+        note=TB + 'Closed under the global context. RDKit front end (SMILES, kekulisation, ring perception) external; prepared graph computed by the harness.',
+        technique='Coq finite theorems on regenerated schemes + structural lemmas + vm_compute correspondence of the scheme interpreter'),
+    'C03': dict(
+        text='PARTIAL. Machine-checked (Coq): the order-dependence of the Benson aromatisation on fused alternating rings as a refutation witness '
+             '(known finding), its independence of start atom/direction for a single ring (finite), set-based descriptor counting. The invariance '
+             'itself is decided on the implementation on every run: all atom permutations for <=6 heavy atoms, random renumberings and random SMILES, '
+             'Kekule form, explicit hydrogens, molecule object - identical descriptors or identical failure.',
+        design='5 / C03',
+        note=TB + 'Closed under the global context. descriptors_perm_invariant (DESIGN) is not yet a theorem; RDKit producing isomorphic prepared '
+             'graphs for equivalent spellings is external.',
+        technique='Coq refutation witness + spelling-invariance oracle on the implementation'),
+    'C04': dict(
+        text='PARTIAL. Machine-checked (Coq): no shipped pattern has a molecule-level prefix (finite, regenerated), every declared bond of a match '
+             'lies inside the molecule graph (matcher soundness), descriptor totals add entry-wise. The additivity itself is decided on the '
+             'implementation on every run: stress pairs in both orders, random pairs, self-pairs and triples incl. undecomposable components.',
+        design='5 / C04',
+        note=TB + 'Closed under the global context. descriptors_union (DESIGN) is not yet a theorem.',
+        technique='Coq finite theorem + matcher soundness + mixture oracle on the implementation'),
 }
 
 PENDING_REASON = 'check not built yet in this round (design in DESIGN.md section 5); not claimed until it runs'
